@@ -28,7 +28,7 @@ def load_known(prop):
         line = line.strip()
         if not line.startswith('finding:'):
             continue
-        m = re.match(r'finding:\s+property=(\S+)\s+key=(\S+)\s+(.*)$', line)
+        m = re.match(r'finding:\s+property=(\S+)\s+key=(.*?)\s+::\s+(.*)$', line)
         if m and m.group(1) == prop:
             out[m.group(2)] = m.group(3)
     return out
@@ -76,7 +76,8 @@ class Report:
             self.functions.add(fn)
         if key in self.known:
             inst['verdict'] = 'known-finding'
-            self.known_hits.append((key, self.known[key], where))
+            if key not in [k for k, _, _ in self.known_hits]:
+                self.known_hits.append((key, self.known[key], where))
         else:
             self.violations.append(inst)
 
@@ -103,7 +104,11 @@ class Report:
         lines = []
         for key, what, where in self.known_hits:
             lines.append(f'KNOWN-FINDING: property={self.prop} key={key} at {where}: {what}')
+        printed = set()
         for v in self.violations:
+            if v['key'] in printed:
+                continue
+            printed.add(v['key'])
             h = hashlib.sha1(v['key'].encode()).hexdigest()[:10]
             path = os.path.join(evdir, 'violations', f'{self.prop}-{h}.json')
             with open(path, 'w') as f:
